@@ -94,7 +94,7 @@ func c05Scenarios(tier string) []schedh.Scenario {
 	}
 	f, t := []bool{false}, []bool{true}
 	chain := map[string]string{"p/BUILD": rule("a", ":b") + rule("b", ":c") + rule("c")}
-	add(false, "cmdfail-leaf", chain, []string{"//p:c"}, f, "//p:a")
+	add(true, "cmdfail-leaf", chain, []string{"//p:c"}, t, "//p:a") // depth 3: a's direct dependency is only marked, it did not fail itself
 	add(true, "cmdfail-mid", chain, []string{"//p:b"}, t, "//p:a")
 	// keep_going, a dependant of two independent targets of which the later-sorting one fails (while the first is still building)
 	add(true, "cmdfail-fanin", map[string]string{"p/BUILD": rule("t", ":a", ":z") + rule("a") + rule("z")}, []string{"//p:z"}, t, "//p:t")
